@@ -143,7 +143,9 @@ func blsSuite[
 
 	// constructors
 	{
-		mk := func(what string, err error) { emit("construct", map[string]any{"suite": name, "what": what, "ok": err == nil}) }
+		mk := func(what string, err error) {
+			emit("construct", map[string]any{"suite": name, "what": what, "ok": err == nil})
+		}
 		_, err := bls.NewPublicKey[PK, PKFE, SG, SGFE, E, S](kg.OpIdentity())
 		mk("pk_identity", err)
 		_, err = bls.NewPublicKey[PK, PKFE, SG, SGFE, E, S](tors)
